@@ -172,7 +172,18 @@ impl RepositoryEditor {
         let delegated_targets = targets.signed.signed_delegated_targets();
         // A repository in which a delegated role does not meet the threshold of its delegating
         // role cannot be loaded by any client, so refuse to sign it.
-        for role in &delegated_targets {
+        for (i, role) in delegated_targets.iter().enumerate() {
+            // Role names are global: every delegated role is written as `<name>.json` and has one
+            // entry in the snapshot. Two delegated roles of the same name that differ would be
+            // written over each other.
+            ensure!(
+                delegated_targets[..i]
+                    .iter()
+                    .all(|other| other.signed.name != role.signed.name || other == role),
+                error::DelegatedRolesNotConsistentSnafu {
+                    name: role.signed.name.clone()
+                }
+            );
             let (name, role) = role.clone().targets();
             // The metadata of a delegated role is written as `<name>.json`: under the name of a
             // top-level role it would take the place of that role's file, and clients refuse it.
